@@ -381,6 +381,9 @@ func c17Run(c *core.Ctx) *core.Result {
 	if !needRoot(r) {
 		return r
 	}
+	if hr := core.NewRand(core.Mix(c.Seed, "C17-hidden-first-member", c.Index)); hr.P(1, 25) {
+		return c17HiddenFirst(c, r, hr)
+	}
 	R := c.R
 	kind := []string{"disk", "synth", "subdir", "stacked"}[R.Weighted([]int{6, 4, 2, 1})]
 	model := c17GenTree(R)
@@ -775,6 +778,113 @@ func c17Run(c *core.Ctx) *core.Result {
 			r.ViolateD("tar-hidden-link-source", map[string]any{"case": sample, "diffs": trunc(xd, 10)}, "extracting the archive of the filtered view (%s) does not reproduce the view:\n%s", cfg, strings.Join(trunc(xd, 6), "\n"))
 		default:
 			r.ViolateD("tar-roundtrip-differs", map[string]any{"case": sample, "diffs": trunc(xd, 10)}, "extracting the archive with GNU tar does not reproduce the view (%s):\n%s", cfg, strings.Join(trunc(xd, 8), "\n"))
+		}
+	}
+	return r
+}
+
+// c17HiddenFirst: a composite view whose sub-root is a view that hides, after
+// having looked at it, the first member of a hard-link group (a Map function
+// that excludes it): the first visible member is the file of the archive, the
+// later ones link to it, and every link member names an earlier member.
+func c17HiddenFirst(c *core.Ctx, r *core.Result, R *core.Rand) *core.Result {
+	dir := filepath.Join(c.Dir, "src")
+	os.MkdirAll(filepath.Join(dir, "cache"), 0755)
+	os.MkdirAll(filepath.Join(dir, "data"), 0755)
+	body := R.Bytes(core.Pick(R, []int{1, 100, 40000}))
+	first := core.Pick(R, []string{"cache/a", "cache/zz", "data/a"})
+	others := []string{"data/b", "data/c", "e"}[:R.Range(1, 3)]
+	if os.WriteFile(filepath.Join(dir, first), body, 0644) != nil {
+		r.Inconclusive = "cannot write the source"
+		return r
+	}
+	for _, o := range others {
+		os.Link(filepath.Join(dir, first), filepath.Join(dir, o))
+	}
+	os.WriteFile(filepath.Join(dir, "data", "plain"), []byte("plain"), 0600)
+	base, err := fsutil.NewFS(dir)
+	if err != nil {
+		r.Inconclusive = err.Error()
+		return r
+	}
+	hidden, err := fsutil.NewFilterFS(base, &fsutil.FilterOpt{Map: func(p string, _ *types.Stat) fsutil.MapResult {
+		if p == first {
+			return fsutil.MapResultExclude
+		}
+		return fsutil.MapResultKeep
+	}})
+	if err != nil {
+		r.Inconclusive = err.Error()
+		return r
+	}
+	var view fsutil.FS = hidden
+	pfx := ""
+	shape := core.Pick(R, []string{"filtered", "subdir-of-filtered", "subdir-of-filtered", "filter-on-filtered"})
+	switch shape {
+	case "subdir-of-filtered":
+		view, err = fsutil.SubDirFS([]fsutil.Dir{{FS: hidden, Stat: &types.Stat{Path: "sub", Mode: uint32(os.ModeDir | 0755)}}})
+		pfx = "sub/"
+	case "filter-on-filtered":
+		view, err = fsutil.NewFilterFS(hidden, &fsutil.FilterOpt{ExcludePatterns: []string{"data/plain"}})
+	}
+	if err != nil {
+		r.Inconclusive = err.Error()
+		return r
+	}
+	r.Sample = map[string]any{"variant": "hidden-first-member", "shape": shape, "first": first, "others": others}
+	r.FP = fmt.Sprintf("hidden-first|%s|%s|%d|%d", shape, first, len(others), len(body))
+	r.Nontrivial = true
+	r.AddSet("configs", "hidden-first/"+shape)
+	var buf bytes.Buffer
+	if err := fsutil.WriteTar(context.Background(), view, &buf); err != nil {
+		r.ViolateD("tar-write-error", r.Sample, "WriteTar failed on a view that hides the first member of a link group: %v", err)
+		return r
+	}
+	r.Count("archives", 1)
+	r.Count("archives_of_views_hiding_a_first_link_member", 1)
+	tr := tar.NewReader(bytes.NewReader(buf.Bytes()))
+	seen := map[string]bool{}
+	fileOf := ""
+	for {
+		h, err := tr.Next()
+		if err == io.EOF {
+			break
+		}
+		if err != nil {
+			r.ViolateD("tar-malformed", r.Sample, "archive/tar cannot read the archive: %v", err)
+			return r
+		}
+		name := strings.TrimSuffix(h.Name, "/")
+		if name == pfx+first {
+			r.ViolateD("tar-member-mismatch", r.Sample, "the hidden entry %q is a member of the archive", name)
+		}
+		member := false
+		for _, o := range others {
+			member = member || name == pfx+o
+		}
+		if member {
+			switch h.Typeflag {
+			case tar.TypeReg:
+				data, _ := io.ReadAll(tr)
+				if fileOf != "" {
+					r.ViolateD("tar-member-mismatch", r.Sample, "two members of one link group (%q, %q) are written as files", fileOf, name)
+				} else if !bytes.Equal(data, body) {
+					r.ViolateD("tar-member-mismatch", r.Sample, "%q, the first visible member of its link group, carries %d bytes that are not the file's %d", name, len(data), len(body))
+				}
+				fileOf = name
+			case tar.TypeLink:
+				if !seen[h.Linkname] || h.Linkname != fileOf {
+					r.ViolateD("tar-link-to-absent-member", r.Sample, "member %q is a hard link to %q, which is not an earlier file member of the archive (first visible member: %q)", name, h.Linkname, fileOf)
+				}
+			default:
+				r.ViolateD("tar-member-mismatch", r.Sample, "member %q has type %q", name, string(h.Typeflag))
+			}
+		}
+		seen[name] = true
+	}
+	for _, o := range others {
+		if !seen[pfx+o] {
+			r.ViolateD("tar-member-mismatch", r.Sample, "visible entry %q is missing from the archive", pfx+o)
 		}
 	}
 	return r
